@@ -1030,3 +1030,97 @@ def necessary_condition_sources(fn, bb, defs=None, cd=None, dom=None):
         sl = backward_slice(fn, [t[1]], defs, cd=cd)
         out.append((a, s, sl))
     return out
+
+
+# ----------------------------------------------------------------------------
+# A5: reachability with constant propagation on switch flags
+
+
+def _const_val(k):
+    if k == 'true':
+        return 1
+    if k == 'false':
+        return 0
+    m = re.match(r'^(-?\d+)_[iu](8|16|32|64|128|size)$', k)
+    if m:
+        return int(m.group(1))
+    return None
+
+
+def reachable_cp(fn, starts, cut_edges=(), cut_blocks=(), init=None, max_states=30000):
+    """Like reachable(), but path-sensitive on locals that hold constants and are
+    later switched on (the `let flag = match … { A => true, … }; if flag {…}` idiom):
+    a switch whose operand has a known constant on this path takes only that edge.
+    Falls back to plain reachability if the state budget is exceeded."""
+    cut_edges, cut_blocks = set(cut_edges), set(cut_blocks)
+    # locals worth tracking: switch operands and what is copied into them
+    track = set()
+    for b in fn.bbs:
+        t = b['t']
+        if t[0] == 'sw' and t[1][0] in ('c', 'm') and not t[1][1][1]:
+            track.add(t[1][1][0])
+    changed = True
+    while changed:
+        changed = False
+        for b in fn.bbs:
+            for st in b['s']:
+                if st[0][0] in track and not st[0][1] and st[1][0] == 'use' and st[1][1][0] in ('c', 'm') and not st[1][1][1][1]:
+                    if st[1][1][1][0] not in track:
+                        track.add(st[1][1][1][0])
+                        changed = True
+    seen = set()
+    blocks = set()
+    work = [(s, frozenset((init or {}).items())) for s in starts if s not in cut_blocks]
+    while work:
+        bb, st = work.pop()
+        if (bb, st) in seen:
+            continue
+        seen.add((bb, st))
+        if len(seen) > max_states:
+            return reachable(fn, starts, cut_blocks, cut_edges)
+        blocks.add(bb)
+        env = dict(st)
+        b = fn.bbs[bb]
+        for s in b['s']:
+            d = s[0]
+            if d[1]:
+                continue
+            l = d[0]
+            rv = s[1]
+            if l in track and rv[0] == 'use':
+                op = rv[1]
+                if op[0] == 'k':
+                    v = _const_val(op[1])
+                    if v is None:
+                        env.pop(l, None)
+                    else:
+                        env[l] = v
+                elif not op[1][1] and op[1][0] in env:
+                    env[l] = env[op[1][0]]
+                else:
+                    env.pop(l, None)
+            elif l in env or l in track:
+                if rv[0] == 'un' and rv[1] == 'Not' and rv[2][0] in ('c', 'm') and not rv[2][1][1] and rv[2][1][0] in env:
+                    env[l] = 0 if env[rv[2][1][0]] else 1
+                else:
+                    env.pop(l, None)
+            # a mutable borrow of a tracked local invalidates it
+            if rv[0] == 'ref' and rv[2] and not rv[1][1]:
+                env.pop(rv[1][0], None)
+        t = b['t']
+        nxt = None
+        if t[0] == 'call':
+            if not t[4][1]:
+                env.pop(t[4][0], None)
+        if t[0] == 'sw' and t[1][0] in ('c', 'm') and not t[1][1][1] and t[1][1][0] in env:
+            v = str(env[t[1][1][0]])
+            listed = dict(t[2])
+            nxt = [listed.get(v, t[3])]
+        if nxt is None:
+            nxt = succs(fn, bb)
+        ns = frozenset(env.items())
+        for s in nxt:
+            if s in cut_blocks or (bb, s) in cut_edges:
+                continue
+            work.append((s, ns))
+    return blocks
